@@ -18,6 +18,7 @@ import impl
 from props import visitlib as vl
 from props import c08cross as cx
 from props import c08layouts as ly
+from props import c08rebind as rb
 from props import c08shapes as sh
 from props import pipeline as pl
 
@@ -243,12 +244,12 @@ def build_target(rng, callers_first):
     return src, cs
 
 
-def run_cli(project, extra_path=None):
+def run_cli(project, extra_path=None, target="target.py"):
     env = dict(os.environ, PYTHONHASHSEED="0")
     if extra_path is not None:
         # a further search-path entry AFTER whatever selects the rattr under test
         env["PYTHONPATH"] = os.pathsep.join(x for x in (env.get("PYTHONPATH"), str(extra_path)) if x)
-    p = subprocess.run([sys.executable, "-m", "rattr", "-w", "none", "-o", "results", "target.py"], cwd=str(project),
+    p = subprocess.run([sys.executable, "-m", "rattr", "-w", "none", "-o", "results", target], cwd=str(project),
                        capture_output=True, text=True, timeout=180, env=env)
     return p.returncode, p.stdout, p.stderr
 
@@ -710,6 +711,47 @@ def cross_correspondence(res, model, project):
         res.extra.get("cross_resolve_queries_where_the_pre_bb30ccd_rule_differs", 0) + n_fb_differs
 
 
+def rebind_file_correspondence(res, model, cases):
+    """Tie B for the redefinition / order families: the real `compile_root_context` + `FileAnalyser(...).analyse()` on whole
+    modules (a name bound several times; the real and the parameter uses of a plugin-handled name in both orders) against
+    the Lean model of the root context and of the file walk (ops `root_context`, `analyse_file`: `FileA.visitFuncDef` stores
+    every visited definition under the symbol the context holds — `Dict.set`, the LAST analysis stays — and the custom
+    analyser of a call is a function of the symbol found in the CURRENT scope chain only).
+    `cases`: (label, project directory, file relative to it, row count)."""
+    from props import filelib
+
+    live = []
+    for label, project, rel, src in cases:
+        try:
+            c = filelib.run_case(Path(project), rel, src)
+        except SyntaxError as e:
+            res.internal_errors.append({"what": "generated module does not parse", "label": label, "error": str(e)})
+            continue
+        if c.skipped is not None:
+            res.skipped_outside_fragment += 1
+            res.count("in-process:file-model:skipped:" + c.skipped[:40])
+            continue
+        live.append((label, c))
+    pl._drop_config()
+    reqs = []
+    for _, c in live:
+        reqs.append(("root_context", c.payload))
+        reqs.append(("analyse_file", c.payload))
+    outs = model.batch(reqs)
+    for i, (label, c) in enumerate(live):
+        c.root_mo, c.file_mo = outs[2 * i], outs[2 * i + 1]
+        res.evaluations += 1
+        res.count("in-process:file-model:" + label.split("|")[0])
+        d = filelib.compare_root(c.root_im, c.root_mo)
+        if d is None and c.file_im is not None:
+            d = filelib.compare_file(c.file_im, c.file_mo)
+            if c.file_im["outcome"] == "ok":
+                res.count("in-process:file-model:FileIr-keys", len(c.file_im["keys"]))
+        if d is not None:
+            res.disagreements.append({"case": {"stage": "root-context/file-analyser", "family": label, "file": c.target,
+                                               "module": c.src if len(c.src) < 4000 else c.src[:4000] + "…"}, "diff": d[:2000]})
+
+
 def run(tier, seed, build):
     warnings.simplefilter("ignore")
     res = common.Result(PID)
@@ -743,7 +785,23 @@ def run(tier, seed, build):
                 "only) next to the module file / plain directory only / f only in a submodule, at top level and inside a "
                 "package, x import spelling x call made in the target / a followed import / a followed import with a relative "
                 "import; and 10 combinations over TWO search-path entries; expected callee = the file CPython's FileFinder "
-                "binds. non-trivial = distinct (caller row, order) / (binder, shape, form) / (layout, depth, spelling, site)")
+                "binds. ROUND 4 (props/c08rebind.py), exhaustive in both tiers: U) the callee Python picks has NO IR of its own "
+                "{nested def, nested async def, lambda bound to a local name, nested class, @rattr_ignore'd module-level function "
+                "/ class} x every placement {absent, function same / other signature, lambda | class with init} of a same-named "
+                "module-level symbol in the followed import, an import of the import and the target x the call made in the "
+                "target / inside the followed import / directly through the module: only the call itself may be contributed; R) "
+                "REDEFINITION: one module-level name bound two or three times, every ordered pair of {def, async def, lambda, "
+                "class with / without __init__, from-import, @rattr_ignore'd def} (minus the 5 pairs that crash rattr), other "
+                "parameter name / extra parameter, if-else branches, conditional redefinition, try / except, caller written "
+                "before / between / after, in the target / a followed import / directly through the module: the LAST binding "
+                "(either one for the conditional forms) is the callee; O) ORDER / STATE: sorted, getattr, setattr, hasattr, "
+                "delattr, defaultdict, collections.defaultdict (+ controls len, a module-level function) used as the real "
+                "thing in one function and as a PARAMETER (positional, keyword-only, nested def, lambda) in another, 10 layouts "
+                "(alone / both orders in one file / in a followed import / across the two files): a function's entry is the same "
+                "in every layout and the parameter call is reported and never treated as the real callee. Whole modules of R and "
+                "O go through the Lean model of the root context + file walk, the real environments of U and R through the Lean "
+                "model of __resolve_target_and_ir. non-trivial = distinct (caller row, order) / (binder, shape, form) / (layout, "
+                "depth, spelling, site) / (family row)")
     rng = random.Random(seed)
     import time as _time
     _t = [_time.time()]
@@ -807,14 +865,32 @@ def run(tier, seed, build):
             write_project(d / "proj", files0)
             write_project(d / "r1", files1)
             l2projs.append((d, l0, l1, files0, files1, rows))
+        # ---- families U / R / O (props/c08rebind.py): callees without an IR x homonyms elsewhere; redefinition; order / state
+        urows, rrows = rb.u_rows(), rb.r_rows()
+        oprojs, ogroups = rb.o_projects(rng)
+        ufiles, rfiles = rb.assemble(rb.U_HEAD, urows, rng), rb.assemble(rb.R_HEAD, rrows, rng)
+        rbprojs, rbjobs = [], []
+        for i, (files, outside) in enumerate([(ufiles, False), (rfiles, False)] + [(p["files"], p["outside"]) for p in oprojs]):
+            d = tmp / f"rb{i}"
+            d.mkdir()
+            if outside:
+                # the target lies OUTSIDE the module search path: cwd (= sys.path[0]) is a sibling directory
+                write_project(d / "files", files)
+                (d / "cwd").mkdir()
+                rbjobs.append((d / "cwd", None, "../files/target.py"))
+            else:
+                write_project(d, files)
+                rbjobs.append((d, None))
+            rbprojs.append(d)
         jobs = [(v[0], None) for v in variants + xvariants] + [(p[0], None) for p in sparts] + [(p[0], None) for p in lprojs] + \
-            [(p[0] / "proj", p[0] / "r1") for p in l2projs]
+            [(p[0] / "proj", p[0] / "r1") for p in l2projs] + rbjobs
         with ThreadPoolExecutor(max_workers=14) as ex:
             outs = list(ex.map(lambda j: run_cli(*j), jobs))
         n0 = len(variants) + len(xvariants)
         souts = outs[n0:n0 + len(sparts)]
         louts = outs[n0 + len(sparts):n0 + len(sparts) + len(lprojs)]
-        l2outs = outs[n0 + len(sparts) + len(lprojs):]
+        l2outs = outs[n0 + len(sparts) + len(lprojs):n0 + len(sparts) + len(lprojs) + len(l2projs)]
+        rbouts = outs[n0 + len(sparts) + len(lprojs) + len(l2projs):]
         outs = outs[:n0]
         stage('cli-runs')
         exhaustive_rows = set()
@@ -845,6 +921,25 @@ def run(tier, seed, build):
         for (d, l0, l1, files0, files1, rows), (rc, out, err) in zip(l2projs, l2outs):
             judge_two_roots(res, l0, l1, files0, files1, rows, d, rc, out, err)
         res.sample({"layout-family": sorted(ly.LAYOUTS), "two-path-entries": [list(map(str, c)) for c in ly.TWO_ROOTS]}, cap=5)
+        # ---- families U / R / O
+        rb_rows = set()
+        for label, (rc, out, err), files in zip(["callee-without-ir", "redefinition"] + [p["layout"] for p in oprojs], rbouts,
+                                                [ufiles, rfiles] + [p["files"] for p in oprojs]):
+            if rc != 0:
+                res.violations.append({"signature": f"cli-failed:{label.split(':')[0]}:rc={rc}",
+                                       "case": {"family": label, "files": files, "stderr": err[-800:]}})
+        if rbouts[0][0] == 0:
+            rb_rows |= rb.judge_u(res, json.loads(rbouts[0][1]), urows, common)
+        if rbouts[1][0] == 0:
+            rb_rows |= rb.judge_r(res, json.loads(rbouts[1][1]), rrows, common)
+        rb_rows |= rb.judge_o(res, oprojs, [json.loads(o[1]) if o[0] == 0 else None for o in rbouts[2:]], ogroups, common)
+        res.sample({"callee-without-ir": [r["name"] for r in urows[:4]], "redefinition": [r["name"] for r in rrows[:4]],
+                    "order-layouts": list(rb.O_LAYOUTS)}, cap=6)
+        res.extra["rebind_families"] = {"callee_without_ir_rows": len(urows), "redefinition_rows": len(rrows),
+                                        "order_layouts": len(oprojs), "order_functions": sum(len(p["functions"]) for p in oprojs),
+                                        "redefinition_pairs_left_out (ClassAnalyser raises ValueError: a crash, C07's)":
+                                        sorted("-then-".join(p) for p in rb.R_CRASHES)}
+        res.extra["rebind_rows"] = len(rb_rows)
         res.extra["exhaustive"] = True
         res.extra["matrix_rows_x_orders"] = len(exhaustive_rows)
         res.extra["cross_module_rows"] = len(cross_rows)
@@ -899,7 +994,20 @@ def run(tier, seed, build):
         # ---- correspondence: cross-module resolution on the real environment
         for d, files, rows, imports_t in xvariants[:3 if tier == "quick" else 6]:
             cross_correspondence(res, model, d)
+        cross_correspondence(res, model, rbprojs[0])
+        cross_correspondence(res, model, rbprojs[1])
         stage('in-process:cross')
+        fcases = [("callee-without-ir|target", rbprojs[0], "target.py", ufiles["target.py"]),
+                  ("callee-without-ir|import", rbprojs[0], "uimp1.py", ufiles["uimp1.py"]),
+                  ("redefinition|target", rbprojs[1], "target.py", rfiles["target.py"]),
+                  ("redefinition|import", rbprojs[1], "rimp.py", rfiles["rimp.py"])]
+        for dproj, p in zip(rbprojs[2:], oprojs):
+            if p["layout"].startswith("same-file"):
+                fcases.append(("order|" + p["layout"], dproj, "target.py", p["files"]["target.py"]))
+            elif p["layout"].startswith("followed-import:") and "alone" not in p["layout"]:
+                fcases.append(("order|" + p["layout"], dproj, "olib.py", p["files"]["olib.py"]))
+        rebind_file_correspondence(res, model, fcases)
+        stage('in-process:rebind-files')
         res.extra['stage_wall_s (informative only)'] = stages
     finally:
         shutil.rmtree(tmp, ignore_errors=True)
@@ -925,6 +1033,19 @@ def run(tier, seed, build):
         "visit_relative_import): no results, hence nothing inlined — the property ('inlined ONLY when') holds; 'inlined from "
         "the file Python binds' is demanded for the layouts without such a directory. `from m import f as g` is not followed "
         "(C06 finding import-form-not-followed:from-as): for that spelling 'not inlined' is accepted, a wrong file never",
+        "[interp] redefinition: 'the module-level function, lambda or class of that name' is the binding Python's module "
+        "namespace holds when the call runs, i.e. the LAST binding in module order wherever the caller is written (calls made "
+        "while the module is still being imported are not modelled); for bindings in if/else, `if …:` after a first binding and "
+        "try/except either binding is accepted. Only WHICH binding's distinctive attribute is inlined is compared — the first "
+        "binding's call interface being kept for the last body (argument binding) is outside this property (DESIGN §12.9)",
+        "redefinition pairs whose last binding is a class WITH __init__ after a def / lambda / import / ignored def are not "
+        "generated: ClassAnalyser raises ValueError('class … is not in the current context') — no results at all (a crash, "
+        "C07's subject)",
+        "[interp] order family: `getattr(xs, 'k')` (setattr / hasattr / delattr) is NAMED `xs.k` by rattr's namer whatever "
+        "`getattr` is bound to, so a call through a parameter called getattr is reported as `xs.k()`: accepted as 'reported' "
+        "(naming is another property's); what must not happen is the plugin's treatment (`xs.k` among gets/sets/dels, no call)",
+        "callee-without-IR family: an EXCLUDED function (--exclude pattern) is not generated — exclusion is by NAME, so every "
+        "same-named function of every followed import is excluded as well and resolve_function stops before any lookup",
     ]
     return res
 
